@@ -17,7 +17,7 @@ if mode=='refactors':
         print(f"| {n} | {q.get('suite_with_change','?')} | {f(q)} | {f(t)} |")
     sys.exit(0)
 rows=[]; uncaught=[]; own_no=[]
-letters='abcdefghijkl'
+letters='abcdefghijklm'
 per_round={}
 for d in sorted(glob.glob('/verif/seeded/C*/')):
     name=os.path.basename(d.rstrip('/'))
